@@ -1,5 +1,5 @@
 #include "slu_mt_ddefs.h"
-/* ghosts: pre-state copies, lock log (written by stubs/alloc_stubs.c), "request fits" flag read by the abort stub */
+/* ghosts: pre-state copies, lock log (written by stubs/c14_stubs.c), "request fits" flag read by the abort stub */
 int_t g_nextl0, g_nextu0, g_nextlu0, g_nzl0, g_nzu0, g_nzlu0; int g_fits;
 extern int g_locks, g_unlocks; extern void *g_lock_obj, *g_unlock_obj;
 /* inputs */
